@@ -22,10 +22,13 @@ Line protocol (tokens separated by single spaces)
                                    nodes; steps: G~P~key~<node> / G~D~key (write between the listing and the creation of the watch),
                                    W~P~key~<node> / W~D~key (write by some node / lease expiry), V (the watch hands over what is pending),
                                    F (the watch fails; the loop opens a fresh one), S~st (UpdateClusterState), K (a keep-alive answer arrives)
-                                   (obs watches=k pubs=n final=<members>)
+                                   (obs watches=k pubs=n final=<members>); mode=regfail: StartMember whose registerService
+                                   is refused by the store (obs regerr watches=k pubs=n final=<members>)
   selfcluster name=c id=n0 host=h0 port=7000 svcs=g1,c1 cfg=g1:gate,c1:chat types=.. names=..
                                    cluster disabled: InitSelf + BuildSelfClusterTopology + UpdateClusterTopology (obs pub=.. + dump)
   stress n=3000                    reader/updater smoke run (obs ok | mixed:<query> | panic)
+  stress big=20000 swaps=16        the same with a view of `big` working services alternating with a one-service view, the
+                                   small view published while a reader is inside a query (obs ok | mixed:<getter>[fingerprint] | panic:<getter>)
   mk  types=.. names=.. M~<member> ...   member = id;host;port;state;svc,svc
 -/
 namespace Cell2v.Driver.C08
@@ -160,6 +163,9 @@ def parseStep (tok : String) : Step :=
 
 structure SysOp where
   client : Bool
+  /-- `mode=regfail`: `StartMember` whose `registerService` fails (the Put is refused): it returns the
+  error after `startWatching()`, so the watcher lives on; nothing is registered, no keep-alive loop -/
+  regfail : Bool := false
   nodes : List Node
   gaps : List Wr
   steps : List Step
@@ -167,7 +173,7 @@ structure SysOp where
 def parseSys (ws : List String) (rest : List String) : Option SysOp :=
   match kv ws "mode" with
   | some mode =>
-    if mode != "member" && mode != "client" then none else
+    if mode != "member" && mode != "client" && mode != "regfail" then none else
     match splitBatches (rest.filter (fun w => !w.startsWith "mode=")) with
     | [l, b] =>
       match l.mapM parseNode with
@@ -175,7 +181,7 @@ def parseSys (ws : List String) (rest : List String) : Option SysOp :=
       | some ns =>
         let st := b.map parseStep
         if st.any (fun x => match x with | .junk => true | _ => false) then none else
-        some { client := mode == "client", nodes := ns,
+        some { client := mode == "client", regfail := mode == "regfail", nodes := ns,
                gaps := st.filterMap (fun x => match x with | .gap w => some w | _ => none),
                steps := st.filter (fun x => match x with | .gap _ => false | _ => true) }
     | _ => none
@@ -187,7 +193,8 @@ def sysModel (self : Node) (o : SysOp) : Sys × List (List Member) :=
   let start : List SOp :=
     [.fetch o.client] ++ o.gaps.map .write ++ [.openWatch] ++
     -- StartMember: registerService, then keepAliveForever's own Put
-    (if o.client then [] else [.register])
+    (if o.client || o.regfail then [] else [.register])
+  -- (no keep-alive loop after a failed registration: `kaTick` is a no-op of the model while `registered` is false)
   -- `V` = everything pending: needs the state, so the run is folded here
   let all : List (Option SOp) := start.map some ++ o.steps.map (fun x => match x with
     | .write w => some (.write w) | .fail => some .fail | .state st => some (.setState st) | .ka => some .kaTick
@@ -265,7 +272,7 @@ def step (s : St) (line : String) : St × String :=
       | none => (s, "bad-op")
       | some o =>
         let r := sysModel self o
-        (s, s!"watches={r.1.watches} pubs={r.2.length} final=" ++ ((showPub (r.2.getLast?.getD [])).drop 4).toString)
+        (s, (if o.regfail then "regerr " else "") ++ s!"watches={r.1.watches} pubs={r.2.length} final=" ++ ((showPub (r.2.getLast?.getD [])).drop 4).toString)
   | "mk" :: rest =>
     let ms := parseMk rest
     let s' := { s with view := ms, ordered := true }
@@ -438,7 +445,7 @@ def specStep (s : Mon) (line : String) : Mon × String :=
         let g := o.gaps.foldl (fun (acc : AL Node × Bool) w =>
           let r := storeStep acc.1 w; (r.1, acc.2 || r.2.isSome)) (store0, false)
         -- StartMember registers the node (twice: registerService, keepAliveForever)
-        let reg : List Step := if o.client then [] else [.write (.put self0.id self0), .write (.put self0.id self0)]
+        let reg : List Step := if o.client || o.regfail then [] else [.write (.put self0.id self0), .write (.put self0.id self0)]
         -- `shown`: the member set at the last publication (the listing, every non-empty response)
         -- a keep-alive answer with a dirty own state: the lease is revoked (etcd deletes the own key) and
         -- the node registers again with its current state
@@ -458,7 +465,7 @@ def specStep (s : Mon) (line : String) : Mon × String :=
             let self' := { self with state := st }
             (store, if o.client then m else AL.set m self.id self', pend, self', lost, shown, true)
           | .ka =>
-            if o.client || !dirt then acc else
+            if o.client || o.regfail || !dirt then acc else
             let r := kaWrites store self
             (r.1, m, pend ++ r.2, self, lost, shown, false)
           | _ => acc) (g.1, m0, [], self0, g.2, m0, false)
@@ -480,7 +487,7 @@ def specStep (s : Mon) (line : String) : Mon × String :=
             let self' := { self with state := st }
             (store, if o.client then m else AL.set m self.id self', pend, self', shown, true)
           | .ka =>
-            if o.client || !dirt then acc else
+            if o.client || o.regfail || !dirt then acc else
             let r := kaWrites store self
             (r.1, m, pend ++ r.2, self, shown, false)
           | _ => acc) (g.1, m0, gapEvs, self0, m0, false)
